@@ -40,3 +40,12 @@ claim("C12",
       "both modes, both copies of slerp), checks relational endpoint classes (LERP branch, orthogonal, nearly antipodal), and "
       "TLC validates call sequences recorded on live QuaternionArray objects (TraceSlerp).",
       "TLA+ SlerpArray + TLC (exhaustive) + forward replay and trace validation", "DESIGN.md section 5, C12")
+claim("C11",
+      "Constructors.tla is the acceptance decision table as a machine (Construct(call) => out = Expected(call)) over constructor x "
+      "shape x fill x magnitude decade x versor flag and matrix class x route; TLC checks OnlyRotations / AllDirectionsAccepted "
+      "on all 1.6k rows and emits the table; the harness concretises every row at three exact directions / rotations (norms "
+      "1e-100..1e100, NaN/inf/zero/wrong-shape/wrong-type fills, reflections, scaled, sheared, non-orthogonal, NaN matrices, "
+      "stacks) and classifies the outcome; the observed (call, outcome) events are validated by TraceConstructors with the open "
+      "findings as as-built deviations; sums/differences, random attitudes, rotate_by and average are checked to be real "
+      "unit quaternions.",
+      "TLA+ Constructors decision table + TLC + replay and trace validation", "DESIGN.md section 5, C11")
